@@ -153,9 +153,9 @@ func TestC05Subsets(t *testing.T) {
 	}
 	// many chunks (beyond any pipelining window a reader may use): single chunks and
 	// pairs lost at the start, around 64 and 128, in the middle and at the end
-	for _, n := range []int{63, 64, 65, 70, 127, 129, 200} {
-		spots := []int{0, 1, 31, 62, 63, 64, 65, n / 2, 126, 127, 128, n - 2, n - 1}
-		var sets [][]int
+	for _, n := range []int{63, 64, 65, 70, 127, 129, 200, 257, 300} {
+		spots := []int{0, 1, 31, 62, 63, 64, 65, n / 2, 126, 127, 128, 255, 256, n - 2, n - 1}
+		sets := [][]int{nil} // nothing lost: the whole value must come back
 		for _, a := range spots {
 			if a < n {
 				sets = append(sets, []int{a})
